@@ -33,6 +33,11 @@
         `P` a placeholder, `UB` an unchecked access outside the source.
         f=mut appends ` distinct=ok|ALIAS` (all handed out cells pairwise different),
         f=owned appends ` drops=ok`.
+    consume m=<count|last|fold|nth.<j>|panic.<p>> after=<k> [k=…] f=… wi=… n=<calls>
+        `after` plain calls, then std's consumer on top of `next` (`Iterator::count`, `last`, `fold`,
+        `nth(j)`, or `by_ref().for_each` with a closure that panics at its p-th element), then — for
+        `nth` and `panic` — the records of `n` further calls on the surviving iterator, and for
+        `panic` the values a fresh iterator over the same source yields afterwards
     left [k=…] n=<calls>
         owned iteration for n calls, iterator dropped, leaf contents (`P` = placeholder)
 
@@ -174,11 +179,68 @@ def showLeft (mem : Mem) (leafIds : List Nat) : String :=
     | none => "P")
 where showNats' (l : List String) : String := if l.isEmpty then "-" else ",".intercalate l
 
+/-- the item part of a record `<lower>/<upper>/<len>:<item>` -/
+def itemOf (rec : String) : String := ":".intercalate ((rec.splitOn ":").drop 1)
+
+/-- number of `next` calls std's consumer `m` makes on an iterator with `r` items left
+    (`count`, `last`, `fold` run to the first `None`; `nth(j)` stops after `j + 1` items;
+    the panicking closure of `panic.p` stops `for_each` after `p + 1` items) -/
+def consumerCalls (m : String) (r : Nat) : Nat :=
+  match m.splitOn "." with
+  | ["nth", j] => min (j.toNat! + 1) (r + 1)
+  | ["panic", p] => min (p.toNat! + 1) (r + 1)
+  | _ => r + 1
+
+/-- The answer of a `consume` operation, computed from the records of plain `next` calls:
+    `after` calls, then std's consumer (built on `next`), then `n` more calls on the survivor. -/
+def consumeAnswer (m : String) (after n : Nat) (recs : List String) (fresh : String) : String :=
+  let items := recs.map itemOf
+  let rest := (items.drop after).takeWhile (· ≠ "-")
+  let calls := consumerCalls m rest.length
+  let survivor := ";".intercalate ((recs.drop (after + calls)).take n)
+  let showL (l : List String) : String := if l.isEmpty then "-" else ",".intercalate l
+  match m.splitOn "." with
+  | ["count"] => s!"count={rest.length}"
+  | ["last"] => s!"last={rest.getLast?.getD "-"}"
+  | ["fold"] => s!"fold={showL rest}"
+  | ["nth", j] => s!"nth={(rest[j.toNat!]?).getD "-"} | {survivor}"
+  | ["panic", p] =>
+    let how := if p.toNat! < rest.length then "panicked" else "finished"
+    s!"seen={showL (rest.take (p.toNat! + 1))} {how} | {survivor} | fresh={fresh}"
+  | _ => "bad-op"
+
 /-- answer of an `iter` / `left` operation for any position iterator -/
 def answer (op : String) (f : Flavour) (wi : Bool) (split : Option Nat) (n : Nat) (leafIds : List Nat) (total : Nat)
     (next : σ → Outcome (Option π × σ)) (hint : σ → Outcome (Nat × Option Nat))
     (counter : σ → π) (cell : π → Option Nat) (item : Nat → Option π) (showP : π → String)
     (mem0 : Mem) (s0 : σ) : String :=
+  if op.startsWith "consume" then
+    -- op = "consume <m> <after>" (packed by the callers)
+    match op.splitOn " " with
+    | [_, cm, afterS] =>
+      let after := afterS.toNat!
+      -- enough plain calls to cover `after`, the consumer and the survivor's `n`
+      let long := after + (total + 1) + n
+      let mrecs := (modelRecords f wi next hint counter cell showP long (s0, mem0)).1
+      let srecs := specRecords f mem0 wi total item cell showP long
+      let restLen (recs : List String) := (((recs.map itemOf).drop after).takeWhile (· ≠ "-")).length
+      -- the memory after exactly the calls that were made (matters for the owned flavour)
+      let callsM := after + consumerCalls cm (restLen mrecs) + n
+      let callsS := after + consumerCalls cm (restLen srecs) + n
+      let finalMem := (modelRecords f wi next hint counter cell showP callsM (s0, mem0)).2.2.2
+      let visited := (List.range callsS).filterMap fun k => (item k).bind cell
+      let specMem : Mem := fun o => if f = Flavour.owned && visited.contains o then none else mem0 o
+      let freshOf (mem : Mem) : String :=
+        let vals := (List.range total).filterMap fun k =>
+          (item k).map fun p => match cell p with
+            | some c => showVal (some (mem c))
+            | none => "UB"
+        if vals.isEmpty then "-" else ",".intercalate vals
+      let t := if f = Flavour.owned then " drops=ok" else ""
+      both (consumeAnswer cm after n srecs (freshOf specMem) ++ t)
+        (consumeAnswer cm after n mrecs (freshOf finalMem) ++ t)
+    | _ => "bad-op"
+  else
   let m := modelRecords f wi next hint counter cell showP n (s0, mem0)
   if op = "left" then
     let visited := (List.range n).filterMap fun k => (item k).bind cell
@@ -300,8 +362,11 @@ def shapeIterAnswer (lens : List Nat) (n : Nat) : String :=
   if total ≤ usizeMax then both (";".intercalate specRecs) model
   else s!"unrepresentable-length ## {model}"
 
-def matrixAnswer (op : String) (src : MSource Nat) (leafIds : List Nat) (m0 : Mem)
+def matrixAnswer (op0 : String) (src : MSource Nat) (leafIds : List Nat) (m0 : Mem)
     (toks : List String) : String :=
+  let op := if op0 = "consume" then
+      s!"consume {(optArg "m" toks).getD "count"} {((optArg "after" toks).bind String.toNat?).getD 0}"
+    else op0
   let kind := (optArg "k" toks).getD "rowmajor"
   let a := natArg "a" toks 0
   let n := natArg "n" toks 0
@@ -337,8 +402,11 @@ def matrixAnswer (op : String) (src : MSource Nat) (leafIds : List Nat) (m0 : Me
         (LineIter.newDiagonal src.rows src.columns)
     | _ => "bad-op"
 
-def tensorAnswer (op : String) (src : TSource Nat) (leafIds : List Nat) (m0 : Mem)
+def tensorAnswer (op0 : String) (src : TSource Nat) (leafIds : List Nat) (m0 : Mem)
     (toks : List String) : String :=
+  let op := if op0 = "consume" then
+      s!"consume {(optArg "m" toks).getD "count"} {((optArg "after" toks).bind String.toNat?).getD 0}"
+    else op0
   let n := natArg "n" toks 0
   let wi := (optArg "wi" toks) == some "1"
   let split := (optArg "split" toks).bind String.toNat?
@@ -392,7 +460,7 @@ def step (s : State) (toks : List String) : State × String :=
       | some src => (.matrix src (List.range (rows * cols)) mode, s!"ok size={src.rows}x{src.columns}")
     | _, _ => (.none, "bad-op")
   | op :: rest =>
-    if op = "iter" || op = "left" then
+    if op = "iter" || op = "left" || op = "consume" then
       match s with
       | .none => (s, "no-source")
       | .shape lens => (s, shapeIterAnswer lens (natArg "n" rest 0))
